@@ -38,15 +38,20 @@ def wit_scalar(T):
 
 # variant probes: case `ca` carries A, case `cb` carries B; slot 1 has type join(flat A, flat B).
 CAST_PROBES = [
-    # (id, A, B, src core of A, joined core, Bitcast kind lowering A, Bitcast kind lifting A)
-    ("f32_s32", "f32", "s32", "f32", "i32", "F32ToI32", "I32ToF32"),
-    ("f64_s64", "f64", "s64", "f64", "i64", "F64ToI64", "I64ToF64"),
-    ("s32_s64", "s32", "s64", "i32", "i64", "I32ToI64", "I64ToI32"),
-    ("f32_s64", "f32", "s64", "f32", "i64", "F32ToI64", "I64ToF32"),
-    ("s32_f32", "s32", "f32", "i32", "i32", "None", "None"),
-    ("u32_f64", "u32", "f64", "i32", "i64", "I32ToI64", "I64ToI32"),
-    ("f32_f64", "f32", "f64", "f32", "i64", "F32ToI64", "I64ToF32"),
-    ("f64_f32", "f64", "f32", "f64", "i64", "F64ToI64", "I64ToF64"),
+    # (id, A, B, core of A, joined core, Bitcast lowering A, Bitcast lifting A, slot kind)
+    ("f32_s32", "f32", "s32", "f32", "i32", "F32ToI32", "I32ToF32", "num"),
+    ("f64_s64", "f64", "s64", "f64", "i64", "F64ToI64", "I64ToF64", "num"),
+    ("s32_s64", "s32", "s64", "i32", "i64", "I32ToI64", "I64ToI32", "num"),
+    ("f32_s64", "f32", "s64", "f32", "i64", "F32ToI64", "I64ToF32", "num"),
+    ("s32_f32", "s32", "f32", "i32", "i32", "None", "None", "num"),
+    ("u32_f64", "u32", "f64", "i32", "i64", "I32ToI64", "I64ToI32", "num"),
+    ("f32_f64", "f32", "f64", "f32", "i64", "F32ToI64", "I64ToF32", "num"),
+    ("f64_f32", "f64", "f32", "f64", "i64", "F64ToI64", "I64ToF64", "num"),
+    # second case carries a string: slot 1 is a Pointer (with i32/f32) or a PointerOrI64 (with i64/f64)
+    ("s64_string", "s64", "string", "i64", "i64", "I64ToP64", "P64ToI64", "p64"),
+    ("s32_string", "s32", "string", "i32", "i32", "I32ToP", "PToI32", "ptr"),
+    ("f32_string", "f32", "string", "f32", "i32", "F32ToI32_I32ToP", "PToI32_I32ToF32", "ptr"),
+    ("f64_string", "f64", "string", "f64", "i64", "F64ToI64_I64ToP64", "P64ToI64_I64ToF64", "p64"),
 ]
 
 def wit_cast(A, B):
@@ -475,7 +480,7 @@ def param_type(lang, header, name):
     elif lang == "go":
         m = re.search(r"(?<![\w])" + re.escape(name) + r"\s+([\w\.\*]+)\s*[,)]", header)
     else:
-        m = re.search(r"[(,]\s*((?:const\s+|in\s+)?[\w:\*<>! ]+?)[\s\*]+" + re.escape(name) + r"\s*[,)]", header)
+        m = re.search(r"[(,]\s*((?:const\s+|in\s+)?[\w:<>! ]+?[\s\*]*)(?<![\w])" + re.escape(name) + r"\s*[,)]", header)
     return m.group(1).strip() if m else None
 
 def return_type(lang, header):
@@ -1302,12 +1307,12 @@ def strip_tuple(t):
 # ------------------------------------------------------------------ cast sites
 
 def extract_casts(lang, probe, files):
-    pid, A, B, src, dst, kfwd, kback = probe
+    pid, A, B, src, dst, kfwd, kback, skind = probe
     helpers = Helpers(lang, files)
     sites = []
 
     def new(kind, s_, d_, side):
-        s = Site(lang=lang, probe=pid, kind=kind, src=s_, dst=d_, side=side, snippet="", fname="", wty=A, dir=kind, pos=pid)
+        s = Site(lang=lang, probe=pid, kind=kind, src=s_, dst=d_, side=side, snippet="", fname="", wty=A, dir=kind, pos=pid, skind=skind)
         sites.append(s)
         return s
 
@@ -1323,7 +1328,7 @@ def extract_casts(lang, probe, files):
         fname, text, cs, op, cl = the_call(lang, files, "import_call", "vf")
         s.fname = fname
         args = split_args(text, op + 1, cl)
-        if len(args) != 2:
+        if len(args) < 2:
             raise Problem("translator", f"import call of vf has {len(args)} arguments")
         a, b = args[1]
         slot = re.sub(r"^std::move\((.*)\)$", r"\1", text[a:b].strip())
@@ -1374,7 +1379,7 @@ def extract_casts(lang, probe, files):
         fs, brace = func_start(text, cs)
         hdr = text[fs:brace]
         pn = param_names(lang, hdr)
-        if len(pn) != 2:
+        if len(pn) < 2:
             raise Problem("translator", f"export wrapper of vf has parameters {pn}")
         name = pn[1]
         s.opTy_text = param_type(lang, hdr, name)
@@ -1438,7 +1443,7 @@ def scalar_entry_lean(s, sides):
 def cast_entry_lean(s, sides):
     lowering = s.side == "import"
     slot = s.dst if lowering else s.src
-    return ("{ lang := ." + s.lang + ", kind := " + lean_str(s.kind) + ", payload := ." + s.wty + ", slot := ." + slot +
+    return ("{ lang := ." + s.lang + ", kind := " + lean_str(s.kind) + ", payload := ." + s.wty + ", slot := ." + slot + ", slotKind := ." + s.skind +
             ", lowering := " + ("true" if lowering else "false") +
             ", side := " + lean_str(",".join(sides)) + ", opTy := " + lean_opt_ty(s.opTy) + ", dstTy := " + lean_opt_ty(s.dstTy) +
             ", expr := " + lean_expr(s.expr) + ", text := " + lean_str(one_line(s.snippet)) + " }")
@@ -1483,7 +1488,7 @@ def translate(gen_bin, write=True):
             else:
                 lname = f"{b}_{s.kind}_{s.probe}"
                 d = {"list": lname, "key": f"{b}.{s.probe}.{s.kind}.{s.side}", "backend": b, "kind": s.kind, "probe": s.probe,
-                     "src": s.src, "dst": s.dst, "side": s.side, "payload": arg[1]}
+                     "src": s.src, "dst": s.dst, "side": s.side, "payload": arg[1], "slot_kind": arg[7]}
             d.update({"snippet": s.snippet, "file": s.fname, "opTy_text": s.opTy_text, "dstTy_text": s.dstTy_text,
                       "opTy": s.opTy, "dstTy": s.dstTy, "inlined": s.inlined, "bindings": s.bindings,
                       "operands": getattr(s, "operands", []),
@@ -1502,11 +1507,14 @@ def translate(gen_bin, write=True):
                     ent[1].append(s.side); d["index"] = tgt[lname].index(ent); break
             else:
                 tgt[lname].append((s, [s.side])); d["index"] = len(tgt[lname]) - 1
-    # ---- ScalarExprs.lean
-    out = ["import Witverif.Scalar.Claims", HEADER.format(field="src"),
-           "namespace Witverif.Generated.ScalarExprs", "open Witverif.Scalar Witverif.Scalar.Spec", ""]
+    # ---- Generated/ScalarExprs/<Backend>.lean + ScalarExprs.lean (table); same for CastExprs.
+    # One file per backend: a changed template only invalidates that backend's proofs.
+    CAPS = {"rust": "Rust", "c": "C", "cpp": "Cpp", "csharp": "CSharp", "go": "Go", "moonbit": "MoonBit", "d": "D"}
+    outputs = {}
     names = []
     for b in BACKENDS:
+        out = ["import Witverif.Scalar.Claims", HEADER.format(field="src"),
+               "namespace Witverif.Generated.ScalarExprs", "open Witverif.Scalar Witverif.Scalar.Spec", ""]
         for T in WTYS:
             for instr in (LOWER_INSTR[T], LIFT_INSTR[T]):
                 n = f"{b}_{instr}"
@@ -1516,15 +1524,17 @@ def translate(gen_bin, write=True):
                 out.append(",\n".join("  " + scalar_entry_lean(s, sides) for s, sides in ents))
                 out.append("]\n")
                 report["lists"][n] = len(ents)
-    out.append("def table : List (String × List Entry) := [")
-    out.append(",\n".join(f'  ("{n}", {n})' for n in names))
-    out.append("]\n\nend Witverif.Generated.ScalarExprs\n")
-    scalar_text = "\n".join(out)
-    # ---- CastExprs.lean
-    out = ["import Witverif.Scalar.Claims", HEADER.format(field="text"),
-           "namespace Witverif.Generated.CastExprs", "open Witverif.Scalar Witverif.Scalar.Spec", ""]
+        out.append("end Witverif.Generated.ScalarExprs\n")
+        outputs[os.path.join("ScalarExprs", CAPS[b] + ".lean")] = "\n".join(out)
+    out = [f"import Witverif.Generated.ScalarExprs.{CAPS[b]}" for b in BACKENDS]
+    out += [HEADER.format(field="src"), "namespace Witverif.Generated.ScalarExprs", "open Witverif.Scalar", "",
+            "def table : List (String × List Entry) := [", ",\n".join(f'  ("{n}", {n})' for n in names), "]\n",
+            "end Witverif.Generated.ScalarExprs\n"]
+    outputs["ScalarExprs.lean"] = "\n".join(out)
     cnames = []
     for b in BACKENDS:
+        out = ["import Witverif.Scalar.Claims", HEADER.format(field="text"),
+               "namespace Witverif.Generated.CastExprs", "open Witverif.Scalar Witverif.Scalar.Spec", ""]
         for pr in CAST_PROBES:
             for kind in (pr[5], pr[6]):
                 n = f"{b}_{kind}_{pr[0]}"
@@ -1536,15 +1546,17 @@ def translate(gen_bin, write=True):
                 out.append(",\n".join("  " + cast_entry_lean(s, sides) for s, sides in ents))
                 out.append("]\n")
                 report["cast_lists"][n] = len(ents)
-    out.append("def table : List (String × List CastEntry) := [")
-    out.append(",\n".join(f'  ("{n}", {n})' for n in cnames))
-    out.append("]\n\nend Witverif.Generated.CastExprs\n")
-    cast_text = "\n".join(out)
+        out.append("end Witverif.Generated.CastExprs\n")
+        outputs[os.path.join("CastExprs", CAPS[b] + ".lean")] = "\n".join(out)
+    out = [f"import Witverif.Generated.CastExprs.{CAPS[b]}" for b in BACKENDS]
+    out += [HEADER.format(field="text"), "namespace Witverif.Generated.CastExprs", "open Witverif.Scalar", "",
+            "def table : List (String × List CastEntry) := [", ",\n".join(f'  ("{n}", {n})' for n in cnames), "]\n",
+            "end Witverif.Generated.CastExprs\n"]
+    outputs["CastExprs.lean"] = "\n".join(out)
     if write:
-        if write_if_changed(os.path.join(GEN_DIR, "ScalarExprs.lean"), scalar_text):
-            report["files_changed"].append("ScalarExprs.lean")
-        if write_if_changed(os.path.join(GEN_DIR, "CastExprs.lean"), cast_text):
-            report["files_changed"].append("CastExprs.lean")
+        for rel, text in outputs.items():
+            if write_if_changed(os.path.join(GEN_DIR, rel), text):
+                report["files_changed"].append(rel)
     report["probes"] = len(reqs)
     return report
 
